@@ -14,11 +14,62 @@
    [err_of c] for the model's code c, where err_of is ANY function with err_of_nomore / err_of_code below: the
    equalities hold for every such representation of errors, not for one chosen here.  Codes the harness cannot tell
    apart from the generic one are identified with it on the model side (norm). *)
-From Coq Require Import ZArith List Lia Bool String.
+From Coq Require Import ZArith List Lia Bool String ZifyBool.
 Require Import Base.Bits Base.Iter Gen.Consts Gen.Types Gen.Preds Gen.DemuxGen
   Model.Packet Model.Pool Model.Reader Model.Demux.
 Import ListNotations.
 Open Scope Z_scope.
+
+(* ---- the payload concatenation of isPSIComplete / parseData ----
+   both functions sum the payload lengths, take a slice of that length from bytesPool and copy the payloads into it
+   one after the other; the two loops, as folds over the packets, in closed form (stated for the loop bodies as
+   they are generated today; the use sites apply them up to conversion and break when the generated body differs) *)
+(* replace the first fold of the goal by its closed form (the lemma is used up to conversion: the generated text
+   keeps its lets, tactics may have reduced them) *)
+Ltac rew_ofold H :=
+  match goal with |- context [ofold ?f ?l ?s] =>
+    match type of H with _ = ?rhs => replace (ofold f l s) with rhs by (symmetry; exact H) end end.
+
+
+Lemma sum_loop ps : forall l0,
+  ofold (fun l (p : Packet) => let l := (l + (Z.of_nat (List.length (Packet_Payload p)))) in Done l) ps l0 =
+  Done (l0 + Z.of_nat (List.length (concat_payload ps))).
+Proof.
+  induction ps as [|p r IH]; intros l0; cbn [ofold concat_payload flat_map obind].
+  - f_equal. cbn. lia.
+  - rewrite IH. f_equal. fold (concat_payload r). rewrite app_length. lia.
+Qed.
+
+Lemma copy_loop ps : forall pre buf,
+  List.length buf = (List.length pre + List.length (concat_payload ps))%nat -> firstn (List.length pre) buf = pre ->
+  ofold (fun '(o, payload) (p_2 : Packet) =>
+    if (andb (0 <=? o) (o <=? (Z.of_nat (List.length payload)))) then
+      let '(payload, r_1_) := copy_at payload o (Packet_Payload p_2) in
+      let o := (o + r_1_) in Done (o, payload)
+    else Panicked) ps (Z.of_nat (List.length pre), buf) =
+  Done (Z.of_nat (List.length pre + List.length (concat_payload ps)), pre ++ concat_payload ps).
+Proof.
+  induction ps as [|p r IH]; intros pre buf Hlen Hpre.
+  - cbn [ofold concat_payload flat_map List.length] in *. rewrite Nat.add_0_r in *. rewrite app_nil_r.
+    rewrite <- Hlen in Hpre. rewrite firstn_all in Hpre. subst buf. reflexivity.
+  - change (concat_payload (p :: r)) with (Packet_Payload p ++ concat_payload r) in *.
+    cbn [ofold]. rewrite app_length in Hlen.
+    set (src := Packet_Payload p) in *.
+    replace (andb (0 <=? Z.of_nat (List.length pre)) (Z.of_nat (List.length pre) <=? Z.of_nat (List.length buf))) with true by lia.
+    unfold copy_at.
+    replace (Z.min (Z.of_nat (List.length buf) - Z.of_nat (List.length pre)) (Z.of_nat (List.length src))) with (Z.of_nat (List.length src)) by lia.
+    rewrite !Nat2Z.id. rewrite Hpre.
+    replace (Z.to_nat (Z.of_nat (List.length pre) + Z.of_nat (List.length src))) with (List.length pre + List.length src)%nat by lia.
+    cbn [obind].
+    replace (Z.of_nat (List.length pre) + Z.of_nat (List.length src)) with (Z.of_nat (List.length (pre ++ src))) by (rewrite app_length; lia).
+    rewrite (app_assoc pre src).
+    rewrite IH.
+    + do 2 f_equal. rewrite !app_length. lia.
+    + rewrite firstn_all. rewrite !app_length, skipn_length. lia.
+    + rewrite firstn_all. rewrite (app_assoc pre src). rewrite firstn_app, firstn_all, Nat.sub_diag.
+      cbn [firstn]. apply app_nil_r.
+Qed.
+
 
 (* ---- errors ---- *)
 
